@@ -163,6 +163,22 @@ def check_shape(t, shape, rot=0, only=None, extras=True, kind="node"):
                 t.violation("C13: options given as tuple/generator or custom functions with a filter do not give the specified lines",
                             dict(ctx, engine="E2", module=MOD, custom=True, indent=1, start=0, names=names, expected=exp + exp_edges,
                                  observed=lines, stop=[], filtered_out=[hid], maxlevel=None))
+    # indent is a plain prefix of every emitted piece, whatever the piece contains (blank option, several physical lines)
+    odd_options = ["", "%% two\n%% physical lines", "   "]
+    for ind_n in (2,):
+        e = MermaidExporter(nodes[0], options=odd_options, indent=ind_n, nodenamefunc=namef,
+                            nodefunc=lambda nd: '["%s\nsecond line"]' % nd.name, edgefunc=lambda a, b: "-- x\ny -->")
+        lines = list(e)
+        ind = " " * ind_n
+        declared, edges, _ = reference(m, 0, (), (), None)
+        exp = ["graph TD"] + [ind + o for o in odd_options] + [ind + "id%d" % v + '["%s\nsecond line"]' % names[v] for v in declared]
+        exp_edges = [ind + "id%d" % p + "-- x\ny -->" + "id%d" % c for p, c in edges]
+        t.c["evaluations"] += 1
+        t.c["custom_function_exports"] += 1
+        if lines[: len(exp)] != exp or sorted(lines[len(exp):]) != sorted(exp_edges):
+            t.violation("C13: indent is not a plain prefix of blank / multi-line options and function results",
+                        dict(ctx, engine="E2", module=MOD, custom=True, indent=ind_n, start=0, names=names, expected=exp + exp_edges,
+                             observed=lines, stop=[], filtered_out=[], maxlevel=None))
     # to_file fence
     e = MermaidExporter(nodes[0])
     with tempfile.TemporaryDirectory(prefix="verif-c13-") as d:
